@@ -106,6 +106,13 @@ type hgen struct {
 	o   hGenOpts
 	s   *hSchema
 	ctr int
+	// usedKeys: annotation keys handed out so far, with the source kind they were handed out for
+	usedKeys []hUsedKey
+}
+
+type hUsedKey struct {
+	kind hKind
+	key  string
 }
 
 const lowerAlpha = "abcdefghijklmnopqrstuvwxyz"
@@ -225,6 +232,26 @@ func (g *hgen) annotate(f *TField, nested bool, nbs bool) {
 	var as []hAnno
 	for _, k := range keyed[:n] {
 		a := hAnno{Kind: k, Key: g.ident("k")}
+		// the same parameter name may be used in different places of a request by different fields: a key of
+		// another source kind is reused now and then (every source kind has its own namespace)
+		if k == hkQuery || k == hkForm || k == hkCookie || k == hkPath {
+			var others []string
+			for _, uk := range g.usedKeys {
+				taken := false
+				for _, u2 := range g.usedKeys {
+					if u2.kind == k && u2.key == uk.key {
+						taken = true // one field per (source kind, key)
+					}
+				}
+				if uk.kind != k && !taken {
+					others = append(others, uk.key)
+				}
+			}
+			if len(others) > 0 && t.Chance(1, 6, "h.anno.sharedkey") {
+				a.Key = others[t.Intn(len(others), "h.anno.sharedkey.which")]
+			}
+			g.usedKeys = append(g.usedKeys, hUsedKey{k, a.Key})
+		}
 		if k == hkBody && !nested && t.Chance(1, 2, "h.anno.body.ownkey") {
 			a.Key = f.Key()
 		}
@@ -709,6 +736,17 @@ func (g *hvgen) source(t *TType, key string) hSrcVal {
 	case isScalar(t):
 		sv.Val = g.leaf(t, g.t.Intn(2, "h.src.class"))
 		sv.Text = scalarText(sv.Val, g.noB64)
+		switch t.Kind {
+		case tBYTE, tI16, tI32, tI64:
+			// decimal text with leading zeros is still decimal
+			if g.t.Chance(1, 8, "h.src.zeropad") {
+				if strings.HasPrefix(sv.Text, "-") {
+					sv.Text = "-00" + sv.Text[1:]
+				} else {
+					sv.Text = "00" + sv.Text
+				}
+			}
+		}
 	case (t.Kind == tLIST || t.Kind == tSET) && isScalar(t.Elem) && !t.Elem.Binary && g.t.Chance(1, 2, "h.src.comma"):
 		v := &TVal{T: t}
 		n := 1 + g.t.Intn(4, "h.src.comma.n")
